@@ -526,10 +526,18 @@ impl TryFrom<NaiveDateTime> for IntervalDT {
 
     #[inline]
     fn try_from(dt: NaiveDateTime) -> Result<Self> {
-        if dt.negative {
-            Ok(IntervalDT::try_from_dhms(dt.day, dt.hour, dt.minute, dt.sec, dt.usec)?.negate())
+        let interval = if dt.usec == USECONDS_MAX + 1 {
+            // A parsed fraction that rounds up to a whole second carries into the higher fields.
+            let second = unsafe { IntervalDT::from_usecs_unchecked(USECONDS_PER_SECOND) };
+            IntervalDT::try_from_dhms(dt.day, dt.hour, dt.minute, dt.sec, 0)?
+                .add_interval_dt(second)?
         } else {
-            IntervalDT::try_from_dhms(dt.day, dt.hour, dt.minute, dt.sec, dt.usec)
+            IntervalDT::try_from_dhms(dt.day, dt.hour, dt.minute, dt.sec, dt.usec)?
+        };
+        if dt.negative {
+            Ok(interval.negate())
+        } else {
+            Ok(interval)
         }
     }
 }
